@@ -27,7 +27,7 @@
 #undef __SSE2__
 #include "crypto/hash/md5.h"
 
-#define VF_MD5_TBL	10	/* password: <= 8 blocks; authenticator: 1; plus slack */
+#define VF_MD5_TBL	18	/* password: <= 8 blocks, encode + decode; authenticator: 1 */
 extern size_t	vf_md5_k;
 extern size_t	vf_md5_n;
 extern size_t	vf_md5_len[VF_MD5_TBL];
@@ -119,6 +119,7 @@ __CPROVER_ensures(VF_MD5_DIG_IS(digest, __CPROVER_old(vf_md5_n)))
 	vf_md5_dig[i][15] == __CPROVER_old(vf_md5_dig[i][15])))
 __CPROVER_ensures(VF_MD5_ENTRY_KEPT(0) && VF_MD5_ENTRY_KEPT(1) && VF_MD5_ENTRY_KEPT(2) && VF_MD5_ENTRY_KEPT(3) &&
     VF_MD5_ENTRY_KEPT(4) && VF_MD5_ENTRY_KEPT(5) && VF_MD5_ENTRY_KEPT(6) && VF_MD5_ENTRY_KEPT(7) && VF_MD5_ENTRY_KEPT(8))
+/* (entries 0..8 are all the --dfcc jobs use: <= 8 password blocks, 1 authenticator) */
 ;
 /* HMAC-MD5, same idea one level up: hmac_md5_init records the key, hmac_md5_update appends to the
  * message stream kept in hctx->ctx, hmac_md5_final records (key, message length, message byte at
